@@ -2,6 +2,7 @@ import AscaVerif.Model.Mods
 import AscaVerif.Model.Render
 import AscaVerif.Model.ParseWord
 import AscaVerif.Model.Alias
+import AscaVerif.Model.CliFiles
 import AscaVerif.Model.Interp.Apply
 /-! Line-protocol driver for the model (compiled `lean_exe`; imports the model only — core Lean). -/
 open Asca
@@ -344,6 +345,36 @@ def parseDeroms : Nat → List String → Option (List Alias.Derom × List Strin
     pure ((key, seg) :: ds, rest'')
   | _, _ => none
 
+/-! ## command-line file formats: `rsca|wsca|aliasf <cps..>` (readers), `torsca|towsca|toalias <counted texts>` (writers) -/
+def jText (t : Text) : String := "[" ++ ",".intercalate (t.map toString) ++ "]"
+def jTexts (ts : List Text) : String := "[" ++ ",".intercalate (ts.map jText) ++ "]"
+def jGroup (g : Cli.Group) : String := "{\"name\":" ++ jText g.name ++ ",\"rule\":" ++ jTexts g.rules ++ ",\"description\":" ++ jText g.desc ++ "}"
+
+def parseCounted (ts : List String) : Option (Text × List String) :=
+  match ts with
+  | n :: rest => n.toNat? >>= fun n => parseNats n rest
+  | [] => none
+
+def parseCountedList : Nat → List String → Option (List Text × List String)
+  | 0, ts => some ([], ts)
+  | n + 1, ts => do
+    let (t, rest) ← parseCounted ts
+    let (tl, rest') ← parseCountedList n rest
+    pure (t :: tl, rest')
+
+def parseGroupsIn : Nat → List String → Option (List Cli.Group × List String)
+  | 0, ts => some ([], ts)
+  | n + 1, ts => do
+    let (name, r1) ← parseCounted ts
+    match r1 with
+    | k :: r2 =>
+      let k ← k.toNat?
+      let (rules, r3) ← parseCountedList k r2
+      let (desc, r4) ← parseCounted r3
+      let (gs, r5) ← parseGroupsIn n r4
+      pure ({ name := name, rules := rules, desc := desc } :: gs, r5)
+    | [] => none
+
 def handleOp (st : DState) (line : String) : DState × String :=
   let ts := (line.splitOn " ").filter (· != "")
   match ts with
@@ -368,6 +399,30 @@ def handleOp (st : DState) (line : String) : DState × String :=
   | "parsed" :: n :: rest =>
     match n.toNat? >>= fun n => parseDeroms n rest >>= fun (ds, r) => (r.mapM String.toNat?).map fun t => (ds, t) with
     | some (ds, t) => (st, showRes showWord (Alias.parseInput ds t))
+    | none => (st, "bad-op")
+  | "rsca" :: cps =>
+    match cps.mapM String.toNat? with
+    | some t => (st, "[" ++ ",".intercalate ((Cli.parseRsca t).map jGroup) ++ "]")
+    | none => (st, "bad-op")
+  | "wsca" :: cps =>
+    match cps.mapM String.toNat? with
+    | some t => (st, jTexts (Cli.parseWsca t).1)
+    | none => (st, "bad-op")
+  | "aliasf" :: cps =>
+    match cps.mapM String.toNat? with
+    | some t => let (i, f) := Cli.parseAlias t; (st, "{\"into\":" ++ jTexts i ++ ",\"from\":" ++ jTexts f ++ "}")
+    | none => (st, "bad-op")
+  | "torsca" :: n :: rest =>
+    match n.toNat? >>= fun n => parseGroupsIn n rest with
+    | some (gs, _) => (st, jText (Cli.toRsca gs))
+    | none => (st, "bad-op")
+  | "towsca" :: n :: rest =>
+    match n.toNat? >>= fun n => parseCountedList n rest with
+    | some (ws, _) => (st, jText (Cli.toWsca ws))
+    | none => (st, "bad-op")
+  | "toalias" :: n :: rest =>
+    match n.toNat? >>= fun n => parseCountedList n rest >>= fun (i, r) => (match r with | m :: r' => m.toNat? >>= fun m => parseCountedList m r' | [] => none) >>= fun (f, _) => some (i, f) with
+    | some (i, f) => (st, jText (Cli.toAlias i f))
     | none => (st, "bad-op")
   | "apply" :: rest => (st, opApply false rest)
   | "applyv" :: rest => (st, opApply true rest)
